@@ -280,8 +280,13 @@ func c15handler(c *Ctx) {
 		tail := len(chain) > 0 && chain[len(chain)-1].group != ""
 		// the record
 		nrec := r.Intn(6)
-		if tail || (r.P(50) && nDer > 0) {
-			nrec = r.Range(1, 5) // an open group always gets at least one attribute (log/slog elides empty groups)
+		if (tail && r.P(65)) || (r.P(50) && nDer > 0) {
+			nrec = r.Range(1, 5)
+		} else if tail {
+			// a record WITHOUT attributes through a handler whose last step opened a group: the group stays empty (and is
+			// omitted), everything the earlier steps gave is printed as always
+			nrec = 0
+			c.R.Add("records_without_attributes_through_a_handler_that_ends_in_WithGroup", 1)
 		}
 		var recAttrs []stdslog.Attr
 		var recKVs []gen.KV
@@ -383,6 +388,13 @@ func c15handler(c *Ctx) {
 		// the context of the call: the background, one that was cancelled, one whose deadline has passed (a finished
 		// request's context): the record is the same
 		hctx := bg
+		if idx%4 == 2 && len(recKVs) > 0 && recKVs[0].Val.Kind != "group" {
+			// the underlying logger has a context key registered whose name is that of an attribute of the RECORD, and the
+			// context holds a value under it: the record's own attribute is what the record carries
+			lg.SetContextKeys(recKVs[0].Key)
+			hctx = context.WithValue(bg, recKVs[0].Key, "a value found in the context") //nolint:staticcheck // string keys are what the library documents
+			c.R.Add("records_whose_context_holds_a_value_under_the_name_of_a_record_attribute", 1)
+		}
 		switch idx % 4 {
 		case 1:
 			cctx, cancel := context.WithCancel(bg)
